@@ -141,6 +141,10 @@ structure Facts where
   /-- run.go `typeAssert`: the wrapper of an assertion to a host interface is made over the value the
       interface holds (`genInterfaceWrapperValue(val.node, rtype, held)`, since ccca582) -/
   assertHostWrapsHeld : Bool
+  /-- use.go `getWrapper` (which wrapper struct a script value converted to a host interface gets, the
+      composed ones of stdlib/wrapper-composed.go first): the methods a composed wrapper requires are
+      looked up in `n.typ.methods()` — own and promoted methods — (true) or on the type itself only -/
+  wrapperUsesMethodSet : Bool
   /-- run.go `genFunctionWrapper`: how the receiver reaches the frame of the method -/
   recvBind : RecvBind
   /-- value.go `genValueInterface`: an addressable value is copied before it is wrapped -/
